@@ -60,6 +60,7 @@ class CellSim(object):
         self.affs = case['affs']
         self.groups = {}           # name -> declared count (None = removed)
         self.down_since = {}       # server -> (t_lo, t_hi) of current episode
+        self.marked = set()        # (server, app) named in a freeze request
         self.seq = 0
         self.srv_seq = 0
         self.cycles = 0
@@ -149,7 +150,10 @@ class CellSim(object):
     def apply(self, op):
         kind = op[0]
         handler = getattr(self, 'op_' + kind)
-        return handler(*op[1:])
+        res = handler(*op[1:])
+        if kind != 'cycle':
+            self._prune_marks()
+        return res
 
     def op_app(self, alloc_i, aff_i, demand, prio, lease, retention, group,
                traits, once):
@@ -286,6 +290,7 @@ class CellSim(object):
         for aidx in app_idxs:
             if names:
                 server.apps[names[aidx % len(names)]].unschedule = True
+                self.marked.add((server.name, names[aidx % len(names)]))
         server.set_state(scheduler.State.frozen, self.clock.time())
 
     def op_unfreeze(self, idx):
@@ -372,6 +377,14 @@ class CellSim(object):
     def on_cycle(self, info):
         self.last_info = info
 
+    def _prune_marks(self):
+        """A mark is about an instance on a server; it ends when the instance
+        leaves that server."""
+        self.marked = {
+            (srv, name) for srv, name in self.marked
+            if name in self.cell.apps and self.cell.apps[name].server == srv
+        }
+
     def cycle(self):
         capture.activate(self)
         try:
@@ -399,6 +412,7 @@ class CellSim(object):
                     self.stats_count('moved')
         for obs in self.observers:
             obs(self, info)
+        self._prune_marks()
         return info
 
     def run(self, stats=None):
